@@ -189,6 +189,18 @@ def _cause(e):
         if e["before"] != e["after"]:
             return ["parsed lookup list differs (%s%d)" % (e["shape"]["tab"], e["shape"]["typ"])]
         return ["instance does not conform to its shape (harness)"]
+    if e["ev"] == "num":
+        if e["ppanic"] or not e["returned"] or e["leaks"]:
+            return ["number case: panic, hang or goroutine left"]
+        if e["perr"]:
+            return ["a number that fits its field is rejected (place %d)" % e["nk"]]
+        return ["a number is not represented exactly: wrapped or accepted out of range (place %d)" % e["nk"]]
+    if e["ev"] == "errline":
+        if e["ppanic"] or not e["returned"] or e["leaks"]:
+            return ["error-line case: panic, hang or goroutine left"]
+        if not e["perr"]:
+            return ["erroneous text %d accepted" % e["et"]]
+        return ["error reported for the wrong line or token"]
     if e["ev"] == "mean":
         if e["perr"] or e["ppanic"]:
             return ["description %d not parsed: %s" % (e["mid"], (e["perr"] or e["ppanic"])[:60])]
@@ -251,7 +263,7 @@ def _replay_cases(ctx, cases, boost=1):
 
 
 def _report(ctx, case, ev, cause, count):
-    part = {"parse": "totality", "rt": "roundtrip", "mean": "meaning"}[ev["ev"]]
+    part = {"parse": "totality", "rt": "roundtrip", "mean": "meaning", "num": "numbers", "errline": "error line"}[ev["ev"]]
     if ev["ev"] == "parse":
         what = ("builder.Parse is not total (%s): on the text %r (font %s, GOMAXPROCS=%d, %d runs) it returned %d "
                 "times: %d lookups, %d errors (line numbers %d..%d, %d without a line, text has %d lines), %d panics, "
@@ -270,6 +282,16 @@ def _report(ctx, case, ev, cause, count):
                    ev["perr"], ev["xpanic"], ev["ppanic"], json.dumps(ev["before"])[:400],
                    json.dumps(ev["after"])[:400], count))
         sig = {"part": part, "cause": cause, "table": s["tab"], "type": s["typ"], "forms": "+".join(s["forms"])}
+    elif ev["ev"] == "num":
+        what = ("a number in a description must be represented exactly or be refused (%s): text %r; Parse error %r; "
+                "parsed %s [%d rejected; place %d, literal no. %d of DslLang.tla]"
+                % (cause, ev["text"], ev["perr"], json.dumps(ev["got"])[:400], count, ev["nk"], ev["nl"]))
+        sig = {"part": part, "cause": cause}
+    elif ev["ev"] == "errline":
+        what = ("a parse error must carry the line of the token at which it is detected, an end-of-line token belonging to "
+                "the line it ends (%s): text %r; error %r = line %d, token %r [%d rejected; case (%d,%d,%d) of DslLang.tla]"
+                % (cause, ev["text"], ev["perr"], ev["line"], ev["item"], count, ev["et"], ev["ep"], ev["ex"]))
+        sig = {"part": part, "cause": cause}
     else:
         what = ("the hand-specified description %d does not mean what the documented syntax says (%s): text %r; "
                 "Parse error %r; parsed %s [%d rejected]"
@@ -412,13 +434,15 @@ def _model(ctx):
              label="DslConc, comment loop that stops at newline only: must fail (never terminates at end of input)"),
         dict(module="DslConc", cfg="DslConcSpawn.cfg", timeout=600,
              label="DslConc, lexer started before the preconditions are checked: must fail"),
+        dict(module="DslConc", cfg="DslConcEolNext.cfg", timeout=600,
+             label="DslConc, line counter advanced before the end-of-line item is sent: must fail"),
     ]
     if not ctx.quick():
         jobs.append(dict(module="DslConc", cfg="DslConcG.cfg", files={"DslConcG.cfg": _cfg("DslConc.cfg", MaxTok=4, MaxPeek=1)},
                          timeout=1800, label="DslConc design, MaxTok=4, fault-case enumeration"))
     rr = _par_tlc(ctx, jobs)
-    res, esc, sh, live, neg, neg3, neg2, neg4, neg5 = rr[:9]
-    gen = res if ctx.quick() else rr[9]
+    res, esc, sh, live, neg, neg3, neg2, neg4, neg5, neg6 = rr[:10]
+    gen = res if ctx.quick() else rr[10]
     for r, what in ((res, "design"), (esc, "escape configuration"), (gen, "enumeration run")):
         if not r.ok:
             raise vlib.Infra("DslConc.tla (%s) violates %s on the model -- the spec is wrong, not the code:\n%s"
@@ -439,12 +463,15 @@ def _model(ctx):
         raise vlib.Infra("negative configuration DslConcComment did not fail as expected (%s)" % neg4.violated)
     if neg5.violated not in ("SinkGood", "deadlock"):
         raise vlib.Infra("negative configuration DslConcSpawn did not fail as expected (%s)" % neg5.violated)
+    if neg6.violated != "LineLaw":
+        raise vlib.Infra("negative configuration DslConcEolNext did not fail as expected (%s)" % neg6.violated)
     if sh.violated:
         raise vlib.Infra("shape enumeration violated " + sh.violated)
     ctx.notes.append("negative configurations fail in TLC as required: unbuffered decoder channel -> %s (parser exited, "
                      "decoder blocked in send); buffer = bytes - 2 - backslashes -> %s; error items without line -> ResultOK; comment loop "
                      "that stops at newline only -> Termination (lexer spins at end of input, parser waits); lexer started "
-                     "before the preconditions -> %s (early return leaves the lexer blocked)"
+                     "before the preconditions -> %s (early return leaves the lexer blocked); line counter advanced before the end-of-line "
+                     "item -> LineLaw"
                      % (neg.violated, neg3.violated, neg5.violated))
     ctx.notes.append("subtable alternatives: every pair of formats is a distinct kind of the canonical projection and must be "
                      "preserved (GPOS1 1/2, GPOS2 1/2, context 1/2/3, chained context 1/2/3); GSUB1 format 1 must come back as "
@@ -461,8 +488,10 @@ def _model(ctx):
         if k not in seen:
             seen.add(k)
             out.append(c)
-    shapes = [c for c in sh.cases if "mid" not in c]
+    shapes = [c for c in sh.cases if "forms" in c]
     means = sorted([c for c in sh.cases if "mid" in c], key=lambda c: c["mid"])
+    means += sorted([c for c in sh.cases if "nk" in c], key=lambda c: (c["nk"], c["nl"]))
+    means += sorted([c for c in sh.cases if "et" in c], key=lambda c: (c["et"], c["ep"], c["ex"]))
     return out, shapes, means
 
 
@@ -480,7 +509,7 @@ def run(ctx):
     fcases, shapes, means = _model(ctx)
     if len(fcases) < 500:
         raise vlib.Infra("only %d fault cases" % len(fcases))
-    if len(shapes) < 1000 or len(means) < 10:
+    if len(shapes) < 1000 or len(means) < 500:
         raise vlib.Infra("only %d shapes, %d descriptions" % (len(shapes), len(means)))
 
     binp = ctx.build("c19")
@@ -508,6 +537,7 @@ def run(ctx):
     ctx.sample({"fault_case_from_TLC": fcases[len(fcases) // 2]})
     ctx.sample({"shape_from_TLC": shapes[len(shapes) // 3]})
     ctx.sample({"description_rendered_by_TLC": means[8]})
+    ctx.sample({"error_line_case_rendered_by_TLC": means[-40]})
 
     # ---- run the real code: (a) fault cases, mutation sweep, random texts; (b) round trips, meanings
     nsh = ctx.pick(8, 16)
